@@ -4,7 +4,10 @@
  * and the contract's postconditions are evaluated natively. */
 /* built with -fno-access-control: private members of the real class are reachable */
 #include "TimeLine.hpp"
+#include "RestartReader.hpp"
+#include "RestartWriter.hpp"
 #include "cm_replay.hpp"
+#include <unistd.h>
 #include <cmath>
 
 extern "C" {
@@ -62,6 +65,42 @@ static int fidelity(uint64_t seed, long n) {
 static int replay(const char *path) {
   CMInputs in;
   if (!in.load(path)) return 2;
+  if (in.job == "restart_roundtrip") {
+    char name[64];
+    std::snprintf(name, sizeof name, "/var/tmp/cm_c19_restart_%d.dump", (int)getpid());
+    int bad = 0;
+    for (int pass = 0; pass < 2 && !bad; ++pass) {
+      /* pass 0: the verifier's state; pass 1: native boundary search over integer times of a unit time line */
+      const uint64_t times[] = {0, 1, 3, (1ull << 53) + 1, (1ull << 63) + (1ull << 10) + 1, 0xfffffffffffffff0ull, 0x123456789abcdef1ull};
+      for (int k = 0; k < (pass ? 7 : 1) && !bad; ++k) {
+        TimeLine t(0., 1., 0., 0., nullptr);
+        if (pass == 0) {
+          if (!in.has("in_cur")) break;
+          t._minimum_timestep = in.u64("in_min");
+          t._maximum_timestep = in.u64("in_max");
+          t._current_time = in.u64("in_cur");
+          t._conversion_factors[0] = in.f64("in_A");
+          t._conversion_factors[1] = in.f64("in_B");
+        } else {
+          t._current_time = times[k];
+        }
+        { RestartWriter w(name); t.write_restart_file(w); }
+        RestartReader r(name);
+        TimeLine b(r);
+        const bool same = b._minimum_timestep == t._minimum_timestep && b._maximum_timestep == t._maximum_timestep && b._current_time == t._current_time &&
+                          cm_bits(b._conversion_factors[0]) == cm_bits(t._conversion_factors[0]) && cm_bits(b._conversion_factors[1]) == cm_bits(t._conversion_factors[1]);
+        if (!same) {
+          std::printf("REPRODUCED (%s): real TimeLine with integer time %llu saved and restored: integer time %llu, min step %llu -> %llu, max step %llu -> %llu\n",
+                      pass ? "native boundary search" : "verifier counterexample", (unsigned long long)t._current_time, (unsigned long long)b._current_time,
+                      (unsigned long long)t._minimum_timestep, (unsigned long long)b._minimum_timestep, (unsigned long long)t._maximum_timestep, (unsigned long long)b._maximum_timestep);
+          bad = 1;
+        }
+      }
+    }
+    std::remove(name);
+    if (!bad) std::printf("NOT-REPRODUCED\n");
+    return bad;
+  }
   if (in.job == "advance") {
     TimeLine t(0., 1., 0., 0., nullptr);
     t._minimum_timestep = in.u64("in_min");
